@@ -48,14 +48,29 @@ Section C09.
   Proof. exact loaded_is_signable. Qed.
 
   (** traditional format, gpg key: [sk] is the id of the key gpg signs with — the verification key's own id or
-      one of its subkeys' — and that key has not expired at [now_s] *)
+      one of its subkeys' — and that key has not expired at [now_s].  The entry must conform to securesystemslib's
+      GPG signature schema ([gpg_entry_ok]: key id, signature and other_headers non-empty hex text, other_headers
+      whole bytes); the oracle is asked about signature AND other_headers ([gpg_sig_value]: the signed digest
+      covers both) *)
   Theorem C09_roundtrip_mb_gpg : forall old p mkid sk hd key msg,
     gpg_key_for now_s key mkid sk ->
     signable_bytes (payload_asdict p) = Ok msg ->
     (forall s, In s old -> sig_matches key s = false) ->
-    sig_ok sk msg (sign sk msg) = true ->
+    gpg_entry_ok sk (sign sk msg) hd = true ->
+    sig_ok sk msg (gpg_sig_value (sign sk msg) hd) = true ->
     exists md', create (Metablock old p) (SgGpg sk hd) = Ok md' /\ verify md' key = Ok tt.
   Proof. exact (sign_verify_mb_gpg sign sig_ok now_s). Qed.
+
+  (** a gpg entry whose signature or other_headers were changed: SignatureVerificationError exactly when the oracle
+      rejects the changed (signature, other_headers) pair over the signed bytes *)
+  Theorem C09_tamper_gpg_entry : forall old rest p key mkid sk sval hd msg,
+    gpg_key_for now_s key mkid sk ->
+    (forall s, In s old -> sig_matches key s = false) ->
+    signable_bytes (payload_asdict p) = Ok msg ->
+    gpg_entry_ok sk sval hd = true ->
+    verify (Metablock (old ++ gpg_entry sk sval hd :: rest) p) key =
+      if sig_ok sk msg (gpg_sig_value sval hd) then Ok tt else Err ESignature.
+  Proof. exact (verify_mb_first_gpg sig_ok now_s). Qed.
 
   (** DSSE: the signature is over PAE(type, payload bytes); earlier entries are irrelevant (any-match);
       a GPGSigner is refused *)
@@ -369,6 +384,7 @@ Proof. vm_compute. reflexivity. Qed.
 Print Assumptions C09_roundtrip_mb_sslib.
 Print Assumptions C09_loaded_is_signable.
 Print Assumptions C09_roundtrip_mb_gpg.
+Print Assumptions C09_tamper_gpg_entry.
 Print Assumptions C09_roundtrip_env.
 Print Assumptions C09_env_gpg_refused.
 Print Assumptions C09_disk_mb.
